@@ -184,10 +184,10 @@ func (g *harnessGen) symExpr(t *TRef, d string) string {
 				}
 			}
 		}
-		return fmt.Sprintf("func() []%s { r := make([]%s, zzLen); for i := range r { r[i] = %s }; %sreturn r }()", et, et, g.symExpr(rt.Elem, d), distinct)
+		return fmt.Sprintf("func() []%s { r := make([]%s, zzCLen()); zzNest++; for i := range r { r[i] = %s }; zzNest--; %sreturn r }()", et, et, g.symExpr(rt.Elem, d), distinct)
 	case "map":
 		kt, vt := g.goType(rt.Key), g.goType(rt.Elem)
-		return fmt.Sprintf("func() map[%s]%s { r := make(map[%s]%s); for i := 0; i < zzLen; i++ { r[%s] = %s }; return r }()", kt, vt, kt, vt, g.symExpr(rt.Key, d), g.symExpr(rt.Elem, d))
+		return fmt.Sprintf("func() map[%s]%s { r := make(map[%s]%s); n := zzCLen(); zzNest++; for i := 0; i < n; i++ { r[%s] = %s }; zzNest--; return r }()", kt, vt, kt, vt, g.symExpr(rt.Key, d), g.symExpr(rt.Elem, d))
 	case "struct":
 		e := "zzSym_" + rt.Name + "(" + d + " - 1)"
 		if g.opts.ValueTypeInContainer {
